@@ -23,6 +23,7 @@ def dispatch (line : String) : String :=
   | "enc" :: w => encOp w
   | "dec" :: w => decOp w
   | "fblk" :: w => fblkOp w
+  | "fnarrow" :: w => fnarrowOp w
   | "sink" :: w => sinkOp w | "sinkenc" :: w => sinkencOp w
   | "encseq" :: w => encseqOp w
   | "tovecs" :: w => tovecsOp w
